@@ -25,13 +25,31 @@ Statements:
   ["fget", f] ["fset", f, v] FlowVar f
   ["call", R, n]      drive inner (not played) routine R with next() n times
   ["pause", rid, d]   (C10) pause routine rid now and resume it d later ...
+  ["reenter"]         the routine calls next() on itself (must be refused) and goes on
+  ["replay", rid]     reset() + play() of routine rid if it has ended (once)
   ["resched", rid, d] clock.sched(d, routine rid) while it is pending after a
                       yield: the queue moves it (one wake-up, at now + d)
 """
 
+import functools
 import random
 
 SYS, APP = -1, -2
+
+
+def _flag_is_set(flags, c):
+    return flags[c]
+
+
+class _FlagTest:
+    def __init__(self, flags, c):
+        self.flags, self.c = flags, c
+
+    def is_set(self):
+        return self.flags[self.c]
+
+    def __call__(self):
+        return self.flags[self.c]
 
 
 # ---------------------------------------------------------------------------
@@ -121,6 +139,14 @@ class Gen:
                 # re-schedule an older routine that is pending in its clock's
                 # queue: the queue moves it, it wakes once, at the new time
                 body.append(['resched', rng.randrange(rid), self.delta()])
+                continue
+            if 'reenter' in self.features and rng.random() < 0.04:
+                # the routine calls next() on itself (refused) and carries on
+                body.append(['reenter'])
+                continue
+            if 'replay' in self.features and rid > 0 and rng.random() < 0.06:
+                # reset + play of an older routine that has ended
+                body.append(['replay', rng.randrange(rid)])
                 continue
             if self.cond_heavy and not free and rng.random() < 0.3:
                 r_ = rng.random()
@@ -308,10 +334,13 @@ class Run:
         self.fsig = {}
         self.routines = {}
         self.sts = {}
+        self.cmap = []
+        self.cmap_ok = True      # False once a map was changed at an unknown time
         self.start_window = None
         self.addr = NetAddr('127.0.0.1', 57110)
         self.max_late = 0.0
         self.n_res = 0
+        self.n_model = 0
         self.kinds = {}
 
     # ---- helpers ------------------------------------------------------
@@ -342,9 +371,25 @@ class Run:
             run.T0 = run.now_secs()
             for c in run.prog['clocks']:
                 run.clocks.append(run.clk.TempoClock(c['tempo']))
+                # independent model of the clock's affine beats/seconds map:
+                # [base seconds, base beats, tempo]; re-based by the harness at
+                # every tempo / beats statement, at the EXPECTED logical time of
+                # the routine that executes it
+                run.cmap.append([run.T0, 0.0, float(c['tempo'])])
             for c in range(run.prog.get('nconds', 0)):
                 run.flags[c] = False
-                run.conds[c] = run.stm.Condition(lambda c=c: run.flags[c])
+                # the test may be any callable: plain function, bound method,
+                # partial, object with __call__
+                kind = c % 4
+                if kind == 0:
+                    test = (lambda c=c: run.flags[c])
+                elif kind == 1:
+                    test = _FlagTest(run.flags, c).is_set
+                elif kind == 2:
+                    test = functools.partial(_flag_is_set, run.flags, c)
+                else:
+                    test = _FlagTest(run.flags, c)
+                run.conds[c] = run.stm.Condition(test)
             for f in range(run.prog.get('nflows', 0)):
                 run.flows[f] = run.stm.FlowVar()
             for R in run.prog['routines']:
@@ -389,6 +434,7 @@ class Run:
             st['exp_secs'] = parent_secs
         self.sts[R['id']] = st
         rout = self.stm.Routine(self.make_body(R, st))
+        st['rout'] = rout
         if R.get('seed') is not None:
             rout.rand_seed = R['seed']
         self.routines[R['id']] = rout
@@ -411,6 +457,7 @@ class Run:
             try:
                 run.resumed(st, 'start')
                 yield from run.exec(R['body'], st, R)
+                st['ended'] = True
                 run.log.append(('end', st['rid']))
             except GeneratorExit:
                 raise
@@ -435,15 +482,18 @@ class Run:
         self.kinds[kk] = self.kinds.get(kk, 0) + 1
         beats = None
         if st.pop('resync', False):
+            st['unsynced'] = True       # its times now start from an observation
             # released from outside a routine: the release time is physical
             if st['ci'] >= 0:
                 st['exp_beats'] = clock.beats
+                st['now_model'] = obs_secs
                 beats = st['exp_beats']
             else:
                 st['exp_secs'] = obs_secs
         elif st['ci'] >= 0:
             beats = clock.beats
             eb = st['exp_beats']
+            st['now_model'] = obs_secs
             exp_secs = clock.beats2secs(eb)
             if abs(obs_secs - exp_secs) > 1e-9 * max(1.0, abs(exp_secs)):
                 self.fail('tempo-seconds', rid=st['rid'], k=k, after=what,
@@ -452,6 +502,14 @@ class Run:
             elif abs(beats - eb) > 1e-9 * max(1.0, abs(eb)):
                 self.fail('tempo-beats', rid=st['rid'], k=k, after=what,
                           exp_beats=eb, obs_beats=beats)
+            elif self.cmap_ok and not st.get('unsynced'):
+                ms = self.model_secs(st['ci'], eb)
+                st['now_model'] = ms
+                self.n_model += 1
+                if abs(obs_secs - ms) > 1e-9 * max(1.0, abs(ms)):
+                    self.fail('tempo-seconds-model', rid=st['rid'], k=k, after=what,
+                              exp_beats=eb, model_secs=ms, obs_secs=obs_secs,
+                              model_map=list(self.cmap[st['ci']]))
         else:
             if obs_secs != st['exp_secs']:
                 self.fail('seconds', rid=st['rid'], k=k, after=what,
@@ -463,6 +521,22 @@ class Run:
             if late > self.max_late:
                 self.max_late = late
         self.log.append(('res', st['rid'], k, obs_secs - self.T0, beats, what))
+
+    def model_secs(self, ci, beats):
+        bs, bb, tempo = self.cmap[ci]
+        return bs + (beats - bb) / tempo
+
+    def model_beats(self, ci, secs):
+        bs, bb, tempo = self.cmap[ci]
+        return bb + (secs - bs) * tempo
+
+    def expected_now(self, st):
+        """Expected logical seconds of the routine, without asking the library."""
+        if st['ci'] >= 0:
+            # the seconds at which this wake-up began (a beats statement moves
+            # the beat that belongs to "now", not the time)
+            return st['now_model']
+        return st['exp_secs']
 
     def advance(self, st, d):
         if st['ci'] >= 0:
@@ -516,11 +590,22 @@ class Run:
                 self.spawn(s[1], parent_secs=self.now_secs())
             elif op == 'tempo':
                 c = self.clocks[s[1]]
+                if st.get('unsynced'):
+                    self.cmap_ok = False
+                else:
+                    S = self.expected_now(st)
+                    self.cmap[s[1]] = [S, self.model_beats(s[1], S), float(s[2])]
                 c.tempo = s[2]
                 self.log.append(('tempo', st['rid'], s[1], s[2],
                                  self.now_secs() - self.T0))
             elif op == 'beats':
                 c = self.clocks[s[1]]
+                if st.get('unsynced'):
+                    self.cmap_ok = False
+                else:
+                    S = self.expected_now(st)
+                    self.cmap[s[1]] = [S, self.model_beats(s[1], S) + s[2],
+                                       self.cmap[s[1]][2]]
                 c.beats = c.beats + s[2]
                 self.log.append(('beats', st['rid'], s[1], s[2],
                                  self.now_secs() - self.T0))
@@ -537,6 +622,37 @@ class Run:
                     except Exception as e:
                         out = type(e).__name__
                 self.log.append((op, st['rid'], s[1], out, self.now_secs() - self.T0))
+            elif op == 'reenter':
+                me = st['rout']         # the routine that is running this body
+                out = 'no-exception'
+                try:
+                    me.next()
+                except BaseException as e:      # noqa: any refusal will do
+                    out = type(e).__name__
+                self.log.append(('reenter', st['rid'], out != 'no-exception'))
+            elif op == 'replay':
+                tst = self.sts.get(s[1])
+                out = 'skip'
+                if tst is not None and tst.get('ended') and not tst.get('replayed'):
+                    tgt = tst['rout']
+                    tst['replayed'] = True
+                    tst['ended'] = False
+                    tst['k'] = 0
+                    tclock = tst['clock']
+                    if tst['ci'] >= 0:
+                        tst['exp_beats'] = tclock.beats
+                    else:
+                        tst['exp_secs'] = self.now_secs()
+                    tst['unsynced'] = st.get('unsynced', False)
+                    self.live += 1
+                    tgt.reset()
+                    if tst['ci'] >= 0:
+                        tgt.play(tclock, 0)
+                    else:
+                        tgt.play(tclock)
+                    out = 'replayed'
+                self.log.append(('replay', st['rid'], s[1], out,
+                                 self.now_secs() - self.T0))
             elif op == 'resched':
                 tst = self.sts.get(s[1])
                 out = 'skip'
@@ -547,7 +663,7 @@ class Run:
                         tst['moved'] = tclock.beats + s[2]
                     else:
                         tst['moved'] = self.now_secs() + s[2]
-                    tclock.sched(s[2], self.routines[s[1]])
+                    tclock.sched(s[2], tst['rout'])
                     out = 'moved'
                 self.log.append(('resched', st['rid'], s[1], out, s[2],
                                  self.now_secs() - self.T0))
@@ -571,7 +687,12 @@ class Run:
                 yield from self.conds[c].wait()
                 if hung:
                     # released by the first signal issued after the wait began
-                    self.set_to_signal_time(st, self.sig[c][nsig])
+                    if len(self.sig[c]) > nsig:
+                        self.set_to_signal_time(st, self.sig[c][nsig])
+                    else:       # resumed although nobody released the condition
+                        self.fail('resumed-without-release', rid=st['rid'], cond=c,
+                                  after='wait-hung')
+                        st['resync'] = True
                 self.resumed(st, 'wait-hung' if hung else 'wait-pass')
             elif op == 'sig':
                 c = s[1]
